@@ -22,7 +22,32 @@ impl ser::Error for TErr {
 }
 
 pub fn to_tree<T: Serialize + ?Sized>(v: &T) -> Value {
-    v.serialize(S).expect("tree serialisation cannot fail")
+    let mut t = v.serialize(S).expect("tree serialisation cannot fail");
+    canon_sets(&mut t, false);
+    t
+}
+
+/// The pending-remove tables (`deferred`) map a clock to a *set* of members that serialises in hash
+/// iteration order: sort those arrays so that trees of equal states are equal.
+fn canon_sets(v: &mut Value, in_deferred: bool) {
+    match v {
+        Value::Object(m) => {
+            for (k, x) in m.iter_mut() {
+                if in_deferred {
+                    if let Value::Array(a) = x {
+                        a.sort_by_key(|e| e.to_string());
+                    }
+                }
+                canon_sets(x, k == "deferred");
+            }
+        }
+        Value::Array(a) => {
+            for x in a.iter_mut() {
+                canon_sets(x, false);
+            }
+        }
+        _ => {}
+    }
 }
 
 fn key_text(k: Value) -> String {
